@@ -1,11 +1,17 @@
+import Std.Data.HashMap
 import OutrankModel.Model.Wire
 import OutrankModel.Model.C07
 open Wire
 namespace C07
 
-def lookupCnt (t : List (Nat × Nat)) (k : Nat) : Nat := (t.lookup k).getD 0
+def tableOf (t : List (Nat × Nat)) : Std.HashMap Nat Nat := t.foldl (fun m (k, v) => m.insert k v) {}
 
-/-- state: the global counter as a list of [key, count] pairs -/
+/-- the counter function read off a table (absent keys read 0, as the code's "insert missing keys with 0" step gives) -/
+def lookupCnt (t : List (Nat × Nat)) : Nat → Nat :=
+  let m := tableOf t
+  fun k => m.getD k 0
+
+/-- state: the global counter as a list of [key, count] pairs (insertion order of first appearance) -/
 def drv : Handler := fun st args =>
   let tbl := (pairsOf? st).getD []
   match args with
@@ -13,14 +19,18 @@ def drv : Handler := fun st args =>
   | [.atom "call", cands, cap] =>
     match cands.natList?, cap.nat? with
     | some cs, some c =>
-      let cnt := lookupCnt tbl
-      let (cnt', s) := C07.call cnt cs c
-      let keys := (tbl.map (·.1) ++ cs).eraseDups
-      (ofPairs (keys.map fun k => (k, cnt' k)), ofNatList s)
+      let m := tableOf tbl
+      let cnt : Nat → Nat := fun k => m.getD k 0
+      let (_, s) := C07.call cnt cs c
+      -- materialise `bump cnt s` on the known keys (hash maps only speed up the bookkeeping around the model's `sel`)
+      let sm : Std.HashMap Nat Nat := s.foldl (fun a k => a.insert k (a.getD k 0 + 1)) {}
+      let (newKeys, _) := cs.foldl (fun (acc : List Nat × Std.HashMap Nat Unit) k =>
+        if m.contains k || acc.2.contains k then acc else (k :: acc.1, acc.2.insert k ())) ([], {})
+      let keys := tbl.map (·.1) ++ newKeys.reverse
+      (ofPairs (keys.map fun k => (k, cnt k + sm.getD k 0)), ofNatList s)
     | _, _ => (st, bad "C07-call")
   | [.atom "counts"] =>
-    let sorted := Srt.isort (fun a b => decide (a.1 ≤ b.1)) tbl
-    (st, ofPairs sorted)
+    (st, ofPairs (tbl.mergeSort (fun a b => decide (a.1 ≤ b.1))))
   | [.atom "spec", pre, cands, cap, ret] =>
     match pairsOf? pre, cands.natList?, cap.nat?, ret.natList? with
     | some t, some cs, some c, some r => (st, ofBool (C07.callSpecB (lookupCnt t) cs c r))
